@@ -325,11 +325,17 @@ def reference(groups, arrays, trace, oracle, t, dt):
 
 
 # ---------------------------------------------------------------------------
+BOUNDARY_BASE = 1000000
+
+
 def make_tree(seed):
     """a random group tree over arrays a (dest), b"""
     from pysph.sph.equation import Group
     from vf import c03_eqs as E
     rnd = random.Random(seed)
+    # seeds from BOUNDARY_BASE on: index ranges are frequent and include the
+    # boundary literals start_idx = 0 and stop_idx = 0 (an empty range)
+    boundary = seed >= BOUNDARY_BASE
     arrays = ["a", "b"] if rnd.random() < 0.8 else ["a", "b", "c"]
 
     def eqn():
@@ -350,10 +356,16 @@ def make_tree(seed):
         if rnd.random() < 0.2:
             kw["update_nnps"] = True
         r = rnd.random()
-        if r < 0.15:
+        if boundary:
+            if r < 0.4:
+                kw["start_idx"] = rnd.choice([0, 1, "nstart"])
+        elif r < 0.15:
             kw["start_idx"] = rnd.choice([1, "nstart"])
         r = rnd.random()
-        if r < 0.15:
+        if boundary:
+            if r < 0.6:
+                kw["stop_idx"] = rnd.choice([0, 0, 1, 2, "nstop"])
+        elif r < 0.15:
             kw["stop_idx"] = rnd.choice([1, 2, "nstop"])
         if rnd.random() < 0.25:
             kw["pre"] = lambda: None
@@ -596,7 +608,15 @@ def main():
     units = [("vf.props.c03", "unit_program",
               dict(seed=base + i, max_paths=500 if t == "quick" else 2000))
              for i in range(n)]
-    rep.bounds = dict(programs=n, seeds="%d..%d" % (base, base + n - 1),
+    nb = 16 if t == "quick" else 100
+    units += [("vf.props.c03", "unit_program",
+               dict(seed=BOUNDARY_BASE + base + i,
+                    max_paths=500 if t == "quick" else 2000))
+              for i in range(nb)]
+    rep.bounds = dict(programs=n + nb, seeds="%d..%d" % (base, base + n - 1),
+                      boundary_seeds="%d..%d (index ranges frequent, with "
+                      "the literals start_idx = 0 and stop_idx = 0)" % (
+                          BOUNDARY_BASE + base, BOUNDARY_BASE + base + nb - 1),
                       arrays="2-3", real_particles="0..2 per array",
                       ghosts="0..1 per array", neighbours="0..2 per (source, "
                       "destination) pair", start_stop_values="0..2",
